@@ -1,6 +1,6 @@
 (* C10 - Each seat is told exactly what the protocol entitles it to, and nothing else (every schedule).
    Only statements, each closed by [exact]; proofs are in the files imported below. *)
-From BE Require Import Model.Session Model.SessionTie Spec.SessionSpec Proofs.Kahn Proofs.Session Proofs.SessionExamples Proofs.View Model.Conform Proofs.SessionPassOut Proofs.Wire Proofs.SessionConform Proofs.SessionConformLog.
+From BE Require Import Model.Session Model.SessionTie Spec.SessionSpec Proofs.Kahn Proofs.Session Proofs.SessionExamples Proofs.View Model.Conform Proofs.SessionPassOut Proofs.Wire Proofs.SessionConform Proofs.SessionConformLog Proofs.SessionAdmission Proofs.SessionArrivals Proofs.SessionArrivalsCor.
 From BE Require Import Gen.Skeleton Proofs.SkeletonPin.
 From Coq Require Import ZArith.
 Local Open Scope string_scope.
@@ -9,8 +9,8 @@ Local Open Scope list_scope.
 (* FULL STATEMENT, PROVED (C10_conforming_session_views / _every_schedule, Proofs/SessionConformLog.v): for every non-empty
    board list and every conforming behaviour of the four clients, under EVERY schedule the complete sequence of lines sent
    on each of the four connections equals view_spec of Spec/SessionSpec.v for that seat; the theorems about view_spec below
-   say that this reference is what the property states.  Clients connect in the order N, E, S, W in these theorems; for other
-   arrival orders the schedule-independence theorem plus the per-session evaluation decide (suffix _partial). *)
+   say that this reference is what the property states.  First proved for clients connecting in the order N, E, S, W, then
+   lifted to EVERY list of requests that fills the table (C10_any_arrivals_views_are_the_reference). *)
 (* every channel of the session network has one reader and one writer, for every input and every message that might arrive *)
 Theorem C10_ownership :
   forall x, wf_state msg (rd x) (wr x) cw (init_state x).
@@ -85,6 +85,26 @@ Theorem C10_conforming_session_views_every_schedule :
       length l' <= n /\ (sfinal s' -> s' = f).
 Proof. exact conforming_session_views_every_schedule. Qed.
 Print Assumptions C10_conforming_session_views_every_schedule.
+
+(* FULL for every request list that fills the table: under every schedule the connection seated at p is sent exactly view_spec for p *)
+Theorem C10_any_arrivals_views_are_the_reference :
+  forall x : session,
+  let reqs := s_arrivals x in let n := nconn x in
+  let T := seat_requests reqs empty_table in
+  let ns := names_of T North in let ew := names_of T East in
+  s_boards x <> [] -> s_interrupt x = None -> wf_requests reqs -> all_seated T = true ->
+  conforming (s_boards x) (seated_scripts x) = true ->
+  exists f N, sfinal f /\
+    (forall l' s', srun l' (init_state x) = Some s' -> length l' <= N /\ (sfinal s' -> s' = f /\ length l' = N)) /\
+    (exists recs, log_events n f = LOpen :: map LRec recs ++ [LClose] /\
+       map record_json recs =
+       map (fun '(j, b) => SS.record_spec ns ew (RS.sboard_of b)
+                             (SS.play_board (RS.sboard_of b) (fun p => RS.said_of (nth_script (seated_scripts x p) j))))
+           (combine (seq 0 (length (s_boards x))) (s_boards x))) /\
+    (forall p, lines_of (chan f (tr_down n (conn_map reqs p))) =
+               SS.view_spec (match side_of p with NS => ns | EW => ew end) ns ew (outs_of (s_boards x) (seated_scripts x) 0) p).
+Proof. exact any_arrivals_log_and_views_are_the_reference. Qed.
+Print Assumptions C10_any_arrivals_views_are_the_reference.
 
 (* the reference itself says what the property says: start line, header, own hand; then the auction part; then the play part *)
 Theorem C10_view_decomposition :
